@@ -7,7 +7,7 @@ from values import SAMPLES, cp, rust_expr, val_text
 CP_ALTS = {
     "option": ["some", "none"], "rc": ["unique", "shared"], "arc": ["unique", "shared"],
     "rcweak": ["alive", "dangling"], "arcweak": ["alive", "dangling"], "cow": ["owned", "borrowed"],
-    "mutex": ["ok", "poisoned"], "rwlock": ["ok", "poisoned"], "refcell": ["free", "mutborrowed"],
+    "mutex": ["ok", "poisoned"], "rwlock": ["ok", "poisoned"], "refcell": ["free", "mutborrowed", "shrborrowed"],
     "Result": ["Ok", "Err"], "Bound": ["Included", "Excluded", "Unbounded"],
 }
 
@@ -159,6 +159,9 @@ def rust_make(inst):
             if a == "mutborrowed":
                 # a leaked `RefMut` guard leaves the cell mutably borrowed for ever (safe Rust)
                 return f"{{ let c = core::cell::RefCell::new({e}); std::mem::forget(c.borrow_mut()); c }}"
+            if a == "shrborrowed":
+                # a leaked shared `Ref` guard: reads (`try_borrow`) and `get_mut()` through `&mut` still work
+                return f"{{ let c = core::cell::RefCell::new({e}); std::mem::forget(c.borrow()); c }}"
             return f"core::cell::RefCell::new({e})"
         if g in ("rc", "arc"):
             ty = "std::rc::Rc" if g == "rc" else "std::sync::Arc"
